@@ -1,7 +1,7 @@
 (* correspondence glue for C01: the Go hashing (TxHeader.Alh, entry digests), the proofs the real
    store generates and the verdicts of the real verifiers against the model, run with the
    executable SHA-256 *)
-From V Require Export Base.Hex Merkle.Sha256 Proofs.History Proofs.Fixed.
+From V Require Export Base.Hex Merkle.Sha256 Proofs.History Proofs.Fixed Proofs.Gen.
 (* the _refuted witnesses of the known findings are re-checked whenever the model changes *)
 From V Require Import Proofs.Refuted.
 
@@ -137,6 +137,24 @@ Definition run_call (v2 : bool) (c : dcall) : res bool :=
 Definition group_mismatches (v2 : bool) (base : dcall) (vs : list (list edit * res bool)) : list N :=
   mismatches (fun v => res_eqb Bool.eqb (run_call v2 (fold_left apply_edit (fst v) base)) (snd v)) 0 vs.
 
+(* the honest proofs of Proofs/Gen.v (about which completeness is proved) against what the store
+   generates; the consistency terms are taken from the store's proof (their generator is not modelled) *)
+Definition lin_eqb (a b : option linear_proof) : bool :=
+  opt_eqb (fun x y => (lp_src x =? lp_src y) && (lp_tgt x =? lp_tgt y) && lbytes_eqb (lp_terms x) (lp_terms y)) a b.
+Definition lap_eqb (a b : option linear_advance_proof) : bool :=
+  opt_eqb (fun x y => lbytes_eqb (lap_terms x) (lap_terms y) && list_eqb lbytes_eqb (lap_incls x) (lap_incls y)) a b.
+Definition dual_gen_ok (hs : list txhdr) (i j : N) (p : dual_proof) : bool :=
+  let g := gen_dual_proof Hs hs (dp_cons p) i j in
+  opt_eqb (fun x y => h_id x =? h_id y) (dp_src g) (dp_src p) &&
+  opt_eqb (fun x y => h_id x =? h_id y) (dp_tgt g) (dp_tgt p) &&
+  lbytes_eqb (dp_incl g) (dp_incl p) && bytes_eqb (dp_tblalh g) (dp_tblalh p) &&
+  lbytes_eqb (dp_last g) (dp_last p) && lin_eqb (dp_lin g) (dp_lin p) && lap_eqb (dp_lap g) (dp_lap p).
+Definition entry_gen_ok (v : N) (es : list (option kvmd * bytes * bytes)) (idx : N) (p : Z * Z * list bytes) : bool :=
+  match gen_entry_proof Hs v (map entry_of es) idx with
+  | Some (l, w, t) => let '(l', w', t') := p in (l =? l')%Z && (w =? w')%Z && lbytes_eqb t t'
+  | None => false
+  end.
+
 Inductive case :=
 (* TxHeader.Alh() (Panic when it panicked) *)
 | CAlh (h : txhdr) (out : res bytes)
@@ -150,6 +168,10 @@ Inductive case :=
 | CTxDigest (version : N) (md : option kvmd) (key hval : bytes) (out : res bytes)
 (* Eh of a real transaction = reference tree over its entry digests *)
 | CEh (version : N) (es : list (option kvmd * bytes * bytes)) (eh : bytes)
+(* ImmuStore.DualProof(i, j) (or the harness' mirror of it over a lagging history) = gen_dual_proof *)
+| CDualGen (hs : list txhdr) (i j : N) (p : dual_proof)
+(* Tx.Proof(key of entry idx) = gen_entry_proof *)
+| CEntryGen (version : N) (es : list (option kvmd * bytes * bytes)) (idx : N) (p : Z * Z * list bytes)
 | CVerLin (p : option linear_proof) (src tgt : N) (salh talh : bytes) (verdict : bool)
 | CVerLap (p : option linear_advance_proof) (s e : N) (ealh root : bytes) (size : N) (verdict : res bool)
 | CVerDual (p : option dual_proof) (src tgt : N) (salh talh : bytes) (verdict : res bool)
@@ -168,6 +190,8 @@ Definition case_ok (c : case) : bool :=
   | CSpecDigest v md k val out => opt_eqb bytes_eqb (entry_spec_digest Hs v md k val) out
   | CTxDigest v md k hv out => res_eqb bytes_eqb (tx_entry_digest Hs v md k hv) out
   | CEh v es eh => bytes_eqb (eh_of Hs v (map entry_of es)) eh
+  | CDualGen hs i j p => dual_gen_ok hs i j p
+  | CEntryGen v es idx p => entry_gen_ok v es idx p
   | CVerLin p s t sa ta v => Bool.eqb (verify_linear_proof Hs p s t sa ta) v
   | CVerLap p s e ea root size v => res_eqb Bool.eqb (verify_linear_advance_proof Hs p s e ea root size) v
   | CVerDual p s t sa ta v => res_eqb Bool.eqb (verify_dual_proof Hs p s t sa ta) v
